@@ -139,6 +139,14 @@ func (s *asym) structFields(e ast.Expr) (map[string]string, bool) {
 		if s.depth > 4 {
 			return nil, false
 		}
+		// a local closure that builds the key: name := func(…) K { …; return K{…} }
+		if id, ok := ast.Unparen(x.Fun).(*ast.Ident); ok {
+			if v, isVar := objOf(s.info, id).(*types.Var); isVar {
+				if fl := s.closureOf(v); fl != nil {
+					return s.fieldsOfBody(s.info, fl.Type, fl.Body, x, true)
+				}
+			}
+		}
 		fn, _ := typeutil.Callee(s.info, x).(*types.Func)
 		if fn == nil || fn.Pkg() == nil || !load.IsRepoPkg(fn.Pkg()) {
 			return nil, false
@@ -192,6 +200,91 @@ func (s *asym) structFields(e ast.Expr) (map[string]string, bool) {
 		return fm, ok
 	}
 	return nil, false
+}
+
+// closureOf: the function literal a local variable is defined with (name := func…), nil when it is assigned elsewhere too.
+func (s *asym) closureOf(v *types.Var) *ast.FuncLit {
+	var lit *ast.FuncLit
+	n := 0
+	for _, pk := range s.a.P.Pkgs {
+		if pk.TypesInfo != s.info {
+			continue
+		}
+		for _, f := range pk.Syntax {
+			ast.Inspect(f, func(nd ast.Node) bool {
+				as, ok := nd.(*ast.AssignStmt)
+				if !ok {
+					return true
+				}
+				for i, l := range as.Lhs {
+					id, ok := l.(*ast.Ident)
+					if !ok || i >= len(as.Rhs) {
+						continue
+					}
+					if s.info.Defs[id] == types.Object(v) || s.info.Uses[id] == types.Object(v) {
+						n++
+						lit, _ = as.Rhs[i].(*ast.FuncLit)
+					}
+				}
+				return true
+			})
+		}
+	}
+	if n != 1 {
+		return nil
+	}
+	return lit
+}
+
+// fieldsOfBody: the key record a constructor body returns, its parameters bound to the arguments of the call;
+// inEnv: the body is a closure of the function being analysed, so its free variables mean what they mean here.
+func (s *asym) fieldsOfBody(info *types.Info, ft *ast.FuncType, body *ast.BlockStmt, call *ast.CallExpr, inEnv bool) (map[string]string, bool) {
+	if body == nil || len(body.List) == 0 || s.depth > 4 {
+		return nil, false
+	}
+	sub := &asym{a: s.a, info: info, pa: s.pa, pb: s.pb, env: map[types.Object]string{}, bind: map[types.Object]string{}, fields: map[types.Object]map[string]string{}, depth: s.depth + 1}
+	if inEnv {
+		for k, v := range s.env {
+			sub.env[k] = v
+		}
+		for k, v := range s.bind {
+			sub.bind[k] = v
+		}
+		for k, v := range s.fields {
+			sub.fields[k] = v
+		}
+	}
+	i := 0
+	for _, f := range ft.Params.List {
+		for _, n := range f.Names {
+			if i < len(call.Args) {
+				sub.bind[info.Defs[n]] = s.norm(call.Args[i])
+				if fm, ok := s.structFields(call.Args[i]); ok {
+					sub.fields[info.Defs[n]] = fm
+				}
+			}
+			i++
+		}
+	}
+	if i != len(call.Args) {
+		return nil, false
+	}
+	for _, st := range body.List[:len(body.List)-1] {
+		as, ok := st.(*ast.AssignStmt)
+		if !ok || as.Tok != token.DEFINE {
+			return nil, false
+		}
+		sub.assign(as)
+	}
+	ret, ok := body.List[len(body.List)-1].(*ast.ReturnStmt)
+	if !ok || len(ret.Results) != 1 || sub.err != "" {
+		return nil, false
+	}
+	fm, ok := sub.structFields(ret.Results[0])
+	if sub.err != "" {
+		return nil, false
+	}
+	return fm, ok
 }
 
 func swapAB(t string) string {
@@ -407,11 +500,24 @@ func (s *asym) inline(fn *types.Func, call *ast.CallExpr) []apath {
 			}
 		}
 	}
-	if decl == nil || decl.Body == nil || decl.Recv != nil {
+	if decl == nil || decl.Body == nil {
 		s.fail("comparator helper %s has no analysable body", fn.Name())
 		return nil
 	}
 	sub := &asym{a: s.a, info: pk.TypesInfo, env: map[types.Object]string{}, bind: map[types.Object]string{}, fields: map[types.Object]map[string]string{}, depth: s.depth + 1}
+	if decl.Recv != nil {
+		// a compare method of a key type: the receiver is the expression the method is selected on
+		sel, ok := ast.Unparen(call.Fun).(*ast.SelectorExpr)
+		if !ok || len(decl.Recv.List) != 1 || len(decl.Recv.List[0].Names) != 1 {
+			s.fail("comparator method %s has no analysable receiver", fn.Name())
+			return nil
+		}
+		ro := pk.TypesInfo.Defs[decl.Recv.List[0].Names[0]]
+		sub.bind[ro] = s.norm(sel.X)
+		if fm, ok := s.structFields(sel.X); ok {
+			sub.fields[ro] = fm
+		}
+	}
 	i := 0
 	for _, f := range decl.Type.Params.List {
 		for _, n := range f.Names {
